@@ -157,3 +157,11 @@ NOTES = ("Three genuine defects of the pinned tree were repaired by unguarded fi
          "coq/props/Readings.v, Readings2.v, Readings4.v, Readings5.v restate C02, C03, C06, C07, C08 (a stall means deadlock), C09, C10 and the lock clause "
          "of the guard at Prop level.  Seeded breaking changes and behaviour-preserving refactorings made by independent "
          "sub-agents are kept under seeded/ with the outcome of the checks against them (DESIGN.md section 8).")
+
+# appended to every claim: what the correspondence runs vary besides the input values (DESIGN.md 2.3, 8)
+HISTORY_SUFFIX = {
+    "*": (" The correspondence runs vary call histories and object protocols as well as values (same objects reused across "
+          "calls, arguments kept alive, shared sub-objects, every Iterable form, str subclasses, logging on, another ambient "
+          "for repeated calls); oracle-only streams beyond the modelled domain (marked as such in the evidence) are searches "
+          "for failing inputs, not theorems."),
+}
